@@ -12,6 +12,11 @@ delimiter without a backslash), the file is the concatenation of one unit per ch
 (`formatAtlas_units`, `formatUp_units`), `rev` is an involution and the down file lists the reverse
 statements of the changes in reverse plan order (`downStmts_spec`).
 
+`escape_injective`: two delimiters without a backslash never share a header. The hypothesis is needed:
+`escape_sequence_delimiter_not_restored`, `escape_not_injective` — a delimiter holding the two
+characters backslash + n is written like a line feed and read back as one (known finding
+`delimiter-with-literal-escape-sequence`, reproduced on the implementation by the hand-made plans).
+
 PARTIAL: the full statement `scan (format plan) = plan.map cmd` for every plan whose commands are
 `Scannable` is not proved; it is checked on every generated plan by the correspondence + monitor.
 goose / dbmate / liquibase readers are exercised by the harness only.
@@ -140,5 +145,19 @@ example : (Lex.init true (delimLine nl3 ++ [0x0a, 0x0a] ++ Bytes.ascii ['a'])).m
 
 example : (Lex.init true (delimLine (Bytes.ascii ['/', '/']) ++ [0x0a, 0x0a] ++ Bytes.ascii ['a'])).map (·.delim)
     = some (Bytes.ascii ['/', '/']) := by decide
+
+/-- the hypothesis of `unescape_escape` is needed (known finding `delimiter-with-literal-escape-sequence`):
+a delimiter that holds the two characters backslash + n is written unchanged and read back as a line feed. -/
+theorem escape_sequence_delimiter_not_restored :
+    Lex.unescape (escapeDelim [0x5c, 0x6e]) = [0x0a] ∧ Lex.unescape (escapeDelim [0x61, 0x5c, 0x74, 0x62]) = [0x61, 0x09, 0x62] := by
+  decide
+
+/-- **escape_injective**: two delimiters without a backslash never share a header. -/
+theorem escape_injective (d₁ d₂ : Bytes) (h₁ : ∀ b ∈ d₁, b ≠ 0x5c) (h₂ : ∀ b ∈ d₂, b ≠ 0x5c)
+    (h : escapeDelim d₁ = escapeDelim d₂) : d₁ = d₂ := by
+  rw [← unescape_escape d₁ h₁, ← unescape_escape d₂ h₂, h]
+
+/-- … while with a backslash two different delimiters are written as the same header. -/
+theorem escape_not_injective : escapeDelim [0x5c, 0x6e] = escapeDelim [0x0a] := by decide
 
 end Props.C07
